@@ -100,13 +100,18 @@ pub fn read_facts_and_rules(file_name: &str) -> Result<Vec<String>, String> {
     let mut long_line = "".to_string();
     let mut rules: Vec<String> = vec![];
 
+    // A rule can continue on the next line inside parentheses or brackets.
+    let mut round_depth  = 0;
+    let mut square_depth = 0;
+
     match line_reader(file_name) {
         Ok(lines) => {
 
             let mut line_number = 1;
             for line in lines {
                 if let Ok(line) = line {
-                    let line = strip_comments(&line);
+                    let line = strip_comments_at(&line, &mut round_depth,
+                                                 &mut square_depth);
                     if line.len() > 0 {
                         match check_last_char(&line, line_number) {
                             Some(msg) => { return Err(msg); },
@@ -178,11 +183,29 @@ where P: AsRef<Path>, {
 /// * `original line`
 /// # Return
 /// * `line without comments`
+#[allow(dead_code)]  // Strips a single line. Used by tests.
 fn strip_comments(line: &str) -> String {
-
-    let mut previous = 'x';
     let mut round_depth  = 0;
     let mut square_depth = 0;
+    return strip_comments_at(line, &mut round_depth, &mut square_depth);
+}  // strip_comments
+
+/// Strips comments from a line which may begin within braces.
+///
+/// The depth of parentheses and brackets at the start of the line is given
+/// by the caller. It is updated to the depth at the end of the line (or at
+/// the start of the comment), for the next line.
+///
+/// # Arguments
+/// * `original line`
+/// * `depth of round brackets`
+/// * `depth of square brackets`
+/// # Return
+/// * `line without comments`
+fn strip_comments_at(line: &str, round_depth: &mut i32,
+                     square_depth: &mut i32) -> String {
+
+    let mut previous = 'x';
 
     let mut index = 0;
     let mut has_comment = false;
@@ -190,12 +213,12 @@ fn strip_comments(line: &str) -> String {
 
     let chrs = str_to_chars!(line);
     for (i, ch) in chrs.iter().enumerate() {
-        if *ch == '(' { round_depth += 1; }
-        else if *ch == '[' { square_depth += 1; }
-        else if *ch == ')' { round_depth -= 1; }
-        else if *ch == ']' { square_depth -= 1; }
+        if *ch == '(' { *round_depth += 1; }
+        else if *ch == '[' { *square_depth += 1; }
+        else if *ch == ')' { *round_depth -= 1; }
+        else if *ch == ']' { *square_depth -= 1; }
         else if *ch == '"' { in_quotes = !in_quotes; }
-        else if round_depth == 0 && square_depth == 0 && !in_quotes {
+        else if *round_depth == 0 && *square_depth == 0 && !in_quotes {
             if *ch == '#' || *ch == '%' {
                 index = i;
                 has_comment = true;
@@ -216,7 +239,7 @@ fn strip_comments(line: &str) -> String {
         return chars_to_string!(chrs).trim().to_string();
     }
 
-}  // strip_comments
+}  // strip_comments_at
 
 /// Divides a text string into a list of facts and rules.
 ///
